@@ -9,7 +9,7 @@ def strip(e):
         if k == "match" and str(e.get("src", "")).startswith("TryDesugar"):
             e = e["scrut"]["args"][0]
             continue
-        if k in ("addrof", "use"):
+        if k in ("addrof", "use") or (k == "constblock" and "a" in e):
             e = e["a"]
             continue
         if k == "un" and e["op"] == "*":
